@@ -26,6 +26,12 @@ fn main() {
     }
     let _ = (&tier, seed);
     let r = match name {
+        n if n.starts_with("child-dec-") => {
+            let cur = args.iter().position(|a| a == "--cur").map(|i| args[i + 1].clone()).unwrap_or_else(|| "/dev/null".into());
+            let start = args.iter().position(|a| a == "--start").and_then(|i| args[i + 1].parse().ok()).unwrap_or(0usize);
+            bounded::decoder_child(&n[10..], &tier, seed, &cur, start); std::process::exit(0)
+        }
+        n if n.starts_with("child-") => { witnesses::child(&n[6..]); std::process::exit(0) }
         n if n.starts_with("witness-") => witnesses::run(&n[8..]),
         n if n.starts_with("bounded-") => bounded::run(&n[8..], &tier, seed),
         _ => { eprintln!("unknown check {name}"); std::process::exit(2) }
